@@ -115,7 +115,7 @@ Get(u, sel, nc, how, avs) ==
         \* the stored response is freshened and written back in place
         /\ Store(u, refs, i, refs[i].vs, sel)
         /\ Log(rec("304", 0))
-     \/ /\ ~isfresh /\ how = "full"
+     \/ /\ ~isfresh /\ how = "full" /\ avs \in VarySets
         /\ Store(u, refs, IF i > 0 THEN i ELSE 0, avs, sel)
         /\ Log(rec("full", avs))
      \/ /\ ~isfresh /\ how \in {"nostore", "fail"} /\ avs = 0
